@@ -69,6 +69,14 @@ theorem gateway_owner_step (w : Gateway.World) (op : Gateway.Op σ) :
     | error e => rfl
     | ok r => exact (Cgp.Proofs.C06.Gw.transferOperatorship_inv _ _ _ _ hr).2
   | setTime t => left; rfl
+  | upgrade auths =>
+    left
+    obtain ⟨b, hb⟩ := Gateway.step_upgrade_fst H V w auths
+    rw [hb]
+  | migrate auths =>
+    left
+    obtain ⟨b, hb⟩ := Gateway.step_migrate_fst H V w auths
+    rw [hb]
 
 /-- holder implied by a history: the successor named by the last successful transfer, else the initial holder -/
 def gwOwnerAfter (init : Addr) : List (Gateway.Op σ) → List Gateway.Obs → Addr
@@ -112,6 +120,12 @@ theorem gwOwnerAfter_step (w : Gateway.World) (op : Gateway.Op σ) (ops : List (
     | error e => simp [gwOwnerAfter]
     | ok r => simp [gwOwnerAfter, (Cgp.Proofs.C06.Gw.transferOperatorship_inv _ _ _ _ hr).2]
   | setTime t => simp [Gateway.step, gwOwnerAfter]
+  | upgrade auths =>
+    obtain ⟨b, hb⟩ := Gateway.step_upgrade_fst H V w auths
+    rw [hb]; simp [gwOwnerAfter]
+  | migrate auths =>
+    obtain ⟨b, hb⟩ := Gateway.step_migrate_fst H V w auths
+    rw [hb]; simp [gwOwnerAfter]
 
 theorem gateway_owner_after_history (w : Gateway.World) (ops : List (Gateway.Op σ)) :
     (Gateway.run H V w ops).1.st.owner = gwOwnerAfter w.st.owner ops (Gateway.run H V w ops).2 := by
@@ -125,7 +139,22 @@ theorem gateway_owner_after_history (w : Gateway.World) (ops : List (Gateway.Op 
 
 theorem gateway_refused_unchanged (w : Gateway.World) (op : Gateway.Op σ) (e : Gateway.Err)
     (h : (Gateway.step H V w op).2 = .err e) : (Gateway.step H V w op).1 = w := by
-  cases op <;> simp only [Gateway.step] at h ⊢ <;> first | cases h | (split at h <;> first | rfl | cases h)
+  cases op
+  case upgrade auths =>
+    simp only [Gateway.step] at h ⊢
+    by_cases hc : w.st.owner ∈ auths
+    · rw [if_pos hc] at h; cases h
+    · rw [if_neg hc]
+  case migrate auths =>
+    simp only [Gateway.step] at h ⊢
+    by_cases hc : w.st.owner ∉ auths
+    · rw [if_pos hc]
+    · rw [if_neg hc] at h ⊢
+      by_cases hm : w.st.migrating = true
+      · rw [if_pos hm] at h; cases h
+      · rw [if_neg hm]
+  all_goals
+    simp only [Gateway.step] at h ⊢ <;> first | cases h | (split at h <;> first | rfl | cases h)
 end
 
 /-! ### gas service: owner; the gas collector -/
